@@ -396,7 +396,37 @@ def stubs():
         max = 1.7976931348623157e308
         min = -1.7976931348623157e308
 
+    class Scalar0(orders.PyStub):
+        """a 0-d array (what np.vectorize returns for a scalar argument)"""
+        shape = ()
+
+        def __init__(self, v):
+            self.v = v
+
+        def __float__(self):
+            return float(self.v)
+
+        def item(self):
+            return self.v
+
+    def vectorize(fun, **kw):
+        def run(x):
+            if isinstance(x, Arr):
+                return Arr(x.shape, [fun(v) for v in x.tolist_flat()], list(range(x.size)), 'float')
+            if isinstance(x, (list, tuple)):
+                return make([fun(v) for v in x], 'float')
+            return Scalar0(fun(x))
+        return run
+
+    def total(a, **kw):
+        vals = a.tolist_flat() if isinstance(a, Arr) else list(a)
+        t_ = 0
+        for v in vals:
+            t_ = t_ + v
+        return t_
+
     return {
+        'vectorize': vectorize, 'sum': total, 'nansum': lambda a, **k: total([v for v in (a.tolist_flat() if isinstance(a, Arr) else a) if v == v]),
         'finfo': lambda *a, **k: FInfo(),
         'argsort': argsort,
         'zeros': alloc(0.0), 'ones': alloc(1.0), 'empty': alloc(0.0), 'full': full,
